@@ -27,7 +27,7 @@ Ev == Rec[l]
 
 Init == l = 1 /\ snap = [none |-> TRUE] /\ kind = "none"
 Next == /\ l <= Len(Rec)
-        /\ Ev.ev \in {"FInit", "Snap", "Closed", "Dropped", "Op", "Est", "Chain", "Hammer"}
+        /\ Ev.ev \in {"FInit", "Snap", "Closed", "Dropped", "Op", "Est", "Chain", "Hammer", "Locks"}
         /\ l' = l + 1 /\ snap' = Ev /\ kind' = Ev.ev
 Spec == Init /\ [][Next]_<<l, snap, kind>>
 
